@@ -574,9 +574,7 @@ def report_violations(ctx: Ctx, viol):
         if len(firsts) < 6:
             try:
                 item2, k2 = shrink(ctx, item, k_bad)
-                v = to_violation(item2, k2, mm)
-                if v.clause != clause:          # keep the class under which the failure was counted
-                    v = to_violation(item, k_bad, mm)
+                v = to_violation(item2, k2, mm)     # classified again: the shrunk case names its class more precisely
             except Exception as ex:  # noqa: BLE001  -- shrinking is a convenience, never a reason to lose a violation
                 ctx.log(f"shrink failed ({type(ex).__name__}: {ex}); reporting the unshrunk case")
                 v = to_violation(item, k_bad, mm)
